@@ -231,6 +231,19 @@ class Normalizer:
         N = self.M
         return self.A(self.poly_inverse_key(q))
 
+    def add_zero(self, q):
+        """the path assumes q == 0 (mod M): use it as a rewrite rule  LM(q) -> -(q - LT(q)) / LC(q)"""
+        N = self.M
+        if q.is_zero():
+            return
+        lm = q.lead()
+        lc = q.t[lm]
+        if lm == ():
+            return          # a non-zero constant assumed zero: the path is infeasible anyway
+        rest = self.PP({m: c for m, c in q.t.items() if m != lm})
+        self.rules.append((lm, rest.neg().scale(pow(lc, N - 2, N))))
+        self.cache = {}
+
     def reduce(self, p):
         N = self.M
         if not self.rules:
@@ -305,7 +318,8 @@ class Normalizer:
         if p.t[first] > N // 2:
             q = p.neg()
             sigma = -1
-        return p, self.term_of(q), sigma
+        # simplified once here so that every later z3.simplify of a term containing it is a no-op
+        return p, z3.simplify(self.term_of(q)), sigma
 
 
 def normalizer(path, M=N):
